@@ -1,6 +1,7 @@
 package engine
 
 import (
+	"bytes"
 	"encoding/json"
 	"fmt"
 	"math"
@@ -26,9 +27,9 @@ import (
 type C13Actor struct {
 	Kind     string `json:"kind"` // writer reader abandoner badopen creator
 	Sessions int    `json:"sessions"`
-	SlowS    int64  `json:"slow_s,omitempty"`       // the session sleeps this many simulated seconds while it holds the handle
-	Twice    bool   `json:"close_twice,omitempty"`  // every handle is closed a second time at the start of the next session
-	Hostile  string `json:"hostile,omitempty"` // short badheader dir rocreate
+	SlowS    int64  `json:"slow_s,omitempty"`      // the session sleeps this many simulated seconds while it holds the handle
+	Twice    bool   `json:"close_twice,omitempty"` // every handle is closed a second time at the start of the next session
+	Hostile  string `json:"hostile,omitempty"`     // short badheader dir rocreate
 }
 
 type C13Case struct {
@@ -37,6 +38,8 @@ type C13Case struct {
 	Actors    []C13Actor `json:"actors"`
 	PreemptP  float64    `json:"preempt_p"`
 	SchedSeed uint64     `json:"sched_seed"`
+	Mode      string     `json:"mode,omitempty"`   // "": sessions on one file; "recreate": holders, followers and sessions creating the path again
+	Deltas    []int64    `json:"deltas,omitempty"` // recreate: point-count change of the last archive per re-creating session
 }
 
 type c13Sim struct{}
@@ -61,6 +64,23 @@ func (c13Sim) Gen(prop, tier string, r *rand.Rand) interface{} {
 	l.Method = 2
 	c := &C13Case{Layout: l, Clock0: genClock0(r, l), SchedSeed: r.Uint64()}
 	c.PreemptP = pick(r, 0.0, 0.002, 0.01, 0.03, 0.1)
+	if prop == "C13" && chance(r, 0.08) {
+		// the path is created again (open flags without O_EXCL, another file size)
+		// while other sessions hold, or wait for, the file
+		c.Mode = "recreate"
+		c.Layout = genLayout(r, pick(r, "small", "small", "page"))
+		nh := int(between(r, 1, 3))
+		for i := 0; i < nh; i++ {
+			c.Actors = append(c.Actors, C13Actor{Kind: "holder", Sessions: int(between(r, 1, 3)), SlowS: pick(r, int64(0), 0, 2, 5)})
+		}
+		nr := int(between(r, 1, 2))
+		for i := 0; i < nr; i++ {
+			c.Actors = append(c.Actors, C13Actor{Kind: "recreator", Sessions: 1})
+			c.Deltas = append(c.Deltas, pick(r, int64(-1), 1, 2, 400, 2000))
+		}
+		r.Shuffle(len(c.Actors), func(i, j int) { c.Actors[i], c.Actors[j] = c.Actors[j], c.Actors[i] })
+		return c
+	}
 	n := int(between(r, 2, 5))
 	budget := 14
 	for i := 0; i < n; i++ {
@@ -134,6 +154,10 @@ func (c13Sim) Run(e *Env, ci interface{}) {
 		runtime.GC()
 	}()
 
+	if c.Mode == "recreate" {
+		runC13Recreate(e, c)
+		return
+	}
 	archs := toModelArchs(c.Layout)
 	a0 := archs[0]
 	SetClock(e, c.Clock0)
@@ -539,5 +563,154 @@ func c13BadOpen(e *Env, s *Sched, c *C13Case, a C13Actor, tag string, viol func(
 			}
 			db2.Close()
 		}
+	}
+}
+
+// runC13Recreate: a never-written file is held by read-only sessions while
+// other sessions create the path again with another layout (Create with open
+// flags O_RDWR|O_CREATE, then Sync, then Close). A session that holds the file
+// and does not write must find the file's bytes unchanged when it closes; an
+// Open that had to wait must succeed and see one complete file: a header whose
+// layout is one of those ever requested and a file length that fits it.
+func runC13Recreate(e *Env, c *C13Case) {
+	if len(c.Deltas) > 4 {
+		e.Skip("invalid-case")
+		return
+	}
+	SetClock(e, c.Clock0)
+	path := filepath.Join(e.Dir, "shared.wsp")
+	db, err := c.Layout.create(path)
+	if err != nil {
+		e.Violate("C13.setup", "Create: %v", err)
+		return
+	}
+	db.Sync()
+	db.Close()
+	sizeOf := func(l Layout) int64 {
+		n := int64(16 + 12*len(l.Archs))
+		for _, a := range l.Archs {
+			n += 12 * a.N
+		}
+		return n
+	}
+	// the layouts that will ever be requested for the path
+	layouts := []Layout{c.Layout}
+	cur := c.Layout
+	var recreated []Layout
+	for _, d := range c.Deltas {
+		l2 := Layout{Method: cur.Method, Xff: cur.Xff, Archs: append([]Arch(nil), c.Layout.Archs...)}
+		l2.Archs[len(l2.Archs)-1].N += d
+		if !l2.Valid() || d == 0 {
+			e.Skip("invalid-case")
+			return
+		}
+		recreated = append(recreated, l2)
+		layouts = append(layouts, l2)
+	}
+	s := NewSched(c.SchedSeed, nSites)
+	s.PreemptP = c.PreemptP
+	if e.SchedRec != nil && e.SchedRec.Replay {
+		s.SetReplay(e.SchedRec.Choices, e.SchedRec.Preempts)
+	}
+	var mu sync.Mutex
+	viol := func(oracle, format string, args ...interface{}) {
+		mu.Lock()
+		e.Violate(oracle, format, args...)
+		mu.Unlock()
+		s.Abort("violation")
+	}
+	ri := 0
+	for ai, a := range c.Actors {
+		ai, a := ai, a
+		name := fmt.Sprintf("A%d", ai)
+		switch a.Kind {
+		case "holder":
+			s.Go(name, func() {
+				for k := 0; k < a.Sessions; k++ {
+					db, err := wt.Open(path)
+					if err != nil {
+						viol("C13.open", "%s: Open of the file failed although every session that created it synced a complete file before closing: %v", name, err)
+						return
+					}
+					before := readFile(path)
+					got := db.ArchiveInfoList()
+					known := false
+					for _, l := range layouts {
+						if got.Equal(l.wtList()) {
+							known = true
+							if int64(len(before)) != sizeOf(l) {
+								db.Close()
+								viol("C13.no-mixture", "%s: holds a handle whose header says %s (%d bytes) but the file has %d bytes: header and length come from two different sessions", name, l, sizeOf(l), len(before))
+								return
+							}
+						}
+					}
+					if !known {
+						db.Close()
+						viol("C13.no-mixture", "%s: the header read after Open (%v) is none of the layouts ever requested for the path", name, got)
+						return
+					}
+					if a.SlowS > 0 {
+						time.Sleep(time.Duration(a.SlowS) * time.Second)
+					}
+					now := Now()
+					if _, ferr := db.FetchFromArchive(0, wt.Timestamp(now-1), wt.Timestamp(now), wt.Timestamp(now)); ferr != nil {
+						db.Close()
+						viol("C13.no-mixture", "%s: fetch from the held, never-written file failed: %v", name, ferr)
+						return
+					}
+					after := readFile(path)
+					db.Close()
+					if !bytes.Equal(before, after) {
+						viol("C13.exclusive", "%s: the file changed (length %d -> %d, first difference at offset %d) while this session held its handle and wrote nothing", name, len(before), len(after), firstDiff(before, after))
+						return
+					}
+					e.Probe("held-file-unchanged-while-the-path-is-created-again")
+				}
+			})
+		case "recreator":
+			if ri >= len(recreated) {
+				e.Skip("invalid-case")
+				return
+			}
+			l2 := recreated[ri]
+			ri++
+			s.Go(name, func() {
+				db, err := l2.create(path, wt.WithOpenFileFlag(os.O_RDWR|os.O_CREATE))
+				if err != nil {
+					viol("C13.open", "%s: Create (O_RDWR|O_CREATE) over the existing file failed: %v", name, err)
+					return
+				}
+				if err := db.Sync(); err != nil {
+					db.Close()
+					viol("C13.session", "%s: Sync failed: %v", name, err)
+					return
+				}
+				db.Close()
+				e.Fault("path-created-again")
+			})
+		default:
+			e.Skip("invalid-case")
+			return
+		}
+	}
+	s.Install()
+	s.Run()
+	Uninstall()
+	e.OutSched = &SchedRec{Seed: 0, PreemptP: s.PreemptP, Choices: s.Choices, Preempts: s.Preempts}
+	e.Stats.Yields += int64(s.Yields)
+	e.Stats.Decisions += int64(s.Decisions)
+	if s.Switches > 0 {
+		e.Stats.Interleave[s.Signature()] = true
+	}
+	if s.LockWaits > 0 {
+		e.Probe("lock-contention")
+		e.Fault("F8.lock-contention")
+	}
+	if len(s.Panics) > 0 && !e.Failed() {
+		e.Violate("C13.panic", "%s", s.Panics[0])
+	}
+	if s.Deadlock && !e.Failed() {
+		e.Violate("C13.liveness", "quiescence with parked goroutines and nobody runnable: an opener waits for a lock that no live handle holds")
 	}
 }
